@@ -58,30 +58,61 @@ def cases_ops(tier):
         states += list(itertools.permutations(NAMES + ("e",), 4))
     for st in states:
         yield "state=%s" % ",".join(st), {"state": list(st)}
+        # the same registry (the same ordered view) reached by another history: every plug-in registered with priority, last first;
+        # or the first one registered with priority after the others
+        if len(st) >= 2:
+            yield "state=%s/reached-by-prioritized-registrations" % ",".join(st), {"state": list(st), "how": "prioritized"}
+        if len(st) == 3 or (len(st) == 2 and tier == "thorough"):
+            yield "state=%s/reached-by-appending-then-one-prioritized-registration" % ",".join(st), {"state": list(st), "how": "mixed"}
 
 
 ADD_ARGS = [(n, p) for n in ("a", "A", "d", "D", "c") for p in (False, True)]
 GET_ARGS = ["m", "M", "a/m", "A/m", "B/m", "d/m", "a/m/n", "default", "a/", "c/M", "/m", "/"]  # "/m": a request naming the (non-existent) plug-in ""
 
 
-def _manager(T, state, log):
+ALL_TYPES = ("optimizer", "sampler", "realization_filter", "function_estimator", "plan_handler", "plan_step")
+
+
+def _manager(T, state, log, how="appended"):
+    """A manager in the registry state of the case, reached the way every state is reached: made by its real constructor (no plug-in
+    installed by entry points) and given the plug-ins of the state through add_plugin, one after the other - how the manager keeps
+    them is its own business; the scenarios look at it through plugins(), get_plugin() and is_supported() only."""
+    empty = lambda plugin_type: {}  # noqa: E731
     if T.symbolic:
-        sh = T.shadow([M])
+        sh = T.shadow([M], stubs={(M, "_from_entry_points"): empty})
         cls = T.under_contract(sh, M, "PluginManager")
-        for q in ("add_plugin", "get_plugin", "is_supported", "plugins"):
+        for q in ("__init__", "add_plugin", "get_plugin", "is_supported", "plugins"):
             T.under_contract(sh, M, "PluginManager." + q)
+        mgr = cls()
     else:
-        cls = T.func(M, "PluginManager")
-    # made by its real constructor (whatever state it sets up is the state the operations run in), then given the registry of the case
-    mgr = cls()
+        import ropt.plugins._manager as real
+
+        saved = real._from_entry_points
+        real._from_entry_points = empty
+        try:
+            mgr = real.PluginManager()
+        finally:
+            real._from_entry_points = saved
     plugs = {n: FakePlugin(T, n, log) for n in state}
     other = FakePlugin(T, "other", log)
-    mgr._plugins = {"optimizer": {n: plugs[n] for n in state}, "sampler": {"z": other}, "realization_filter": {}, "function_estimator": {}, "plan_handler": {}, "plan_step": {}}
+    if how == "prioritized":
+        for n in reversed(state):
+            mgr.add_plugin("optimizer", n, plugs[n], prioritize=True)
+    elif how == "mixed":
+        for n in state[1:]:
+            mgr.add_plugin("optimizer", n, plugs[n])
+        mgr.add_plugin("optimizer", state[0], plugs[state[0]], prioritize=True)
+    else:
+        for n in state:
+            mgr.add_plugin("optimizer", n, plugs[n])
+    mgr.add_plugin("sampler", "z", other)
+    del log[:]
     return mgr, plugs, other
 
 
 def _view(mgr, t="optimizer"):
-    return list(mgr._plugins[t].items())
+    """The abstract view of the registry of one plug-in type: the ordered (name, plug-in) pairs the public plugins() yields."""
+    return list(mgr.plugins(t))
 
 
 def scn_ops(T, case):
@@ -89,9 +120,10 @@ def scn_ops(T, case):
 
     state = case["state"]
     log = []
-    mgr, plugs, other = _manager(T, state, log)
+    mgr, plugs, other = _manager(T, state, log, case.get("how", "appended"))
+    T.prove("C19.state.registrations_with_and_without_priority_reach_the_registry_of_the_case", [n for n, _ in _view(mgr)] == list(state))
     before = _view(mgr)
-    before_other = {t: _view(mgr, t) for t in mgr._plugins if t != "optimizer"}
+    before_other = {t: _view(mgr, t) for t in ALL_TYPES if t != "optimizer"}
     kind = T.choose(3)
     if kind == 0:
         name, prio = ADD_ARGS[T.choose(len(ADD_ARGS))]
@@ -270,13 +302,11 @@ def scn_isolation(T, case):
         if restore:
             restore[0]._from_entry_points = restore[1]
     T.prove("C19.init.entry_point_plugins_registered_lower_case_in_order", [n for n, _ in m1.plugins("optimizer")] == ["p1", "p2"])
-    T.prove("C19.isolation.managers_do_not_share_registries", m1._plugins is not m2._plugins and all(m1._plugins[t] is not m2._plugins[t] for t in m1._plugins)
-            and all(m1._plugins[t] is not shared[t] for t in shared))
-    before2 = {t: list(m2._plugins[t].items()) for t in m2._plugins}
+    before2 = {t: list(m2.plugins(t)) for t in ALL_TYPES}
     extra = FakePlugin(T, "extra", log)
     m1.add_plugin("optimizer", "Extra", extra, prioritize=True)
     m1.add_plugin("sampler", "s", extra)
-    T.prove("C19.isolation.registration_on_one_manager_does_not_affect_another", {t: list(m2._plugins[t].items()) for t in m2._plugins} == before2)
+    T.prove("C19.isolation.registration_on_one_manager_does_not_affect_another", {t: list(m2.plugins(t)) for t in ALL_TYPES} == before2)
     T.prove("C19.isolation.cached_entry_point_table_not_modified", list(shared["optimizer"]) == ["P1", "p2"] and shared["sampler"] == {})
     try:
         m2.add_plugin("optimizer", "EXTRA", extra)
